@@ -139,6 +139,9 @@ class _TypeMap(object):
   Attributes:
     types: Dict[qual_names.QN, Set[Type]], mapping symbols to the set of
       possible types.
+    unknown: Set[qual_names.QN], symbols bound to a value of unknown type on
+      some path. They have no entry in types: an unknown type absorbs the
+      known ones where paths join.
   """
 
   def __init__(self, init_from=None):
@@ -147,10 +150,14 @@ class _TypeMap(object):
       self.types = {
           s: set(other_types) for s, other_types in init_from.types.items()
       }
+      self.unknown = set(init_from.unknown)
     else:
       self.types = {}
+      self.unknown = set()
 
   def __eq__(self, other):
+    if self.unknown != other.unknown:
+      return False
     if frozenset(self.types.keys()) != frozenset(other.types.keys()):
       return False
     ret = all(self.types[s] == other.types[s] for s in self.types)
@@ -169,6 +176,9 @@ class _TypeMap(object):
       else:
         self_types = result.types[s]
       self_types.update(other_types)
+    result.unknown |= other.unknown
+    for s in result.unknown:
+      result.types.pop(s, None)
     return result
 
   def __repr__(self):
@@ -579,7 +589,9 @@ class Analyzer(cfg.GraphVisitor):
       for s in node_scope.modified | node_scope.deleted:
         if s not in inferrer.new_symbols:
           types_out.types.pop(s, None)
+          types_out.unknown.add(s)
     types_out.types.update(inferrer.new_symbols)
+    types_out.unknown.difference_update(inferrer.new_symbols)
 
     reaching_fndefs = anno.Static.DEFINED_FNS_IN.of(ast_node)
     if node_scope is not None:
